@@ -124,10 +124,12 @@ impl<'a, 'o, 'c> CommonMarkFormatter<'a, 'o, 'c> {
             if k < 0 || self.v[k as usize] == b'\n' {
                 k -= 1;
             } else {
-                self.v.push(b'\n');
-                if self.need_cr > 1 {
+                if self.v.last() == Some(&b'\n') {
+                    // This newline ends an empty line: it makes a blank line, which
+                    // carries the container prefix.
                     self.v.extend(&self.prefix);
                 }
+                self.v.push(b'\n');
             }
             self.column = 0;
             self.last_breakable = 0;
